@@ -777,6 +777,29 @@ theorem engine_uses_split_spec (isSsl : Bool) :
     (engineUsesSplit true true isSsl = isSsl) := by
   cases isSsl <;> simp [engineUsesSplit]
 
+/-- **Enum-valued options may be strings.**  When every test of the direction goes through `__eq__`
+(`Bridge/C11.lean`: `enum_compares_ok` for the comparisons read from `/repo`), the half split does not depend on
+whether the direction arrives as the `HalfSplitType` member or as a lower / UPPER / MiXeD-case string — the driver's
+`hsplit` runs `resolveDir .eq` on the form the real call used. -/
+theorem option_form_irrelevant (f : OptForm) (d : Dir) : resolveDir .eq f d = some d := rfl
+
+/-- for every comparison table passing `enumComparesOk`, every recorded operator is of the `__eq__` kind, under which
+every form of the option passes the test -/
+theorem enum_compares_sound (t : List (String × String × String)) (h : enumComparesOk t = true) :
+    ∀ r ∈ t, ∃ op, cmpOfText r.2.2 = some op ∧ ∀ f, cmpHolds op f = true := by
+  intro r hr
+  have := List.all_eq_true.mp h r hr
+  simp only [beq_iff_eq] at this
+  exact ⟨.eq, this, fun _ => rfl⟩
+
+/-- identity (and hash-based) tests do not recognise a string: the dispatch falls through — with the code's
+`in [HORIZONTAL, VERTICAL]` outer test still passing, both masks stay empty and `input ∪ target ≠ mask` -/
+theorem identity_compare_violates :
+    resolveDir .is_ .lower .horizontal = none ∧ resolveDir .is_ .member .horizontal = some .horizontal ∧
+    resolveDir .hashed .upper .vertical = none ∧ resolveDir .hashed .lower .vertical = some .vertical ∧
+    cmpOfText "is" = some .is_ ∧ enumComparesOk [("MaskSplitter._half_split", "direction ~ HalfSplitType.HORIZONTAL", "is")] = false := by
+  decide
+
 /-- **Admissible ratios.**  For a ratio the constructor accepts (`0 < p/q < 1`) the requested counts stay inside
 the mask: `1 ≤ ⌈S·ρ⌉ ≤ S` for a non-empty mask and `0 ≤ ⌊S·ρ⌋ < S` (hence both parts of a uniform split of ≥ 1 free
 cells… the input keeps at least one free cell) -/
